@@ -281,7 +281,8 @@ func expectBlockArgProcess(
 		return argTs, nil
 	}
 
-	if nextT.IsTargetIdentifier("]") {
+	// the call is itself an element or an argument: a.merge(b.merge(c)) { }
+	if nextT.IsTargetIdentifiers([]string{"]", ")", ","}) {
 		m.parser.Unget()
 		return argTs, nil
 	}
